@@ -79,6 +79,36 @@ def cmp_event(i, k1, u1, a: float, k2, u2, b: float, tag=''):
             'a': rstr(a), 'b': rstr(b), 'tag': tag, 'res': cmp_side(A, B), 'rev': cmp_side(B, A)}
 
 
+def chain_event(i, kind, path, v):
+    """one object converted in place along `path`; observed through public API after every hop"""
+    cls = qclass(kind)
+    obj = cls(v, path[0])
+    fresh = cls(v, path[0])
+    hops = []
+    for u in path[1:]:
+        _, err = outcome(lambda: obj.to(u, inplace=True))
+        if err is not None:
+            hops.append({'ok': False, 'err': err, 'unit': u, 'val': '0', 'unit_seen': '', 'back': '0', 'eq_fresh': False, 'fresh_eq': False, 'lt_fresh': False, 'gt_fresh': False})
+            break
+        back, e2 = outcome(lambda: obj.to(path[0]))
+        hops.append({'ok': True, 'err': '', 'unit': u, 'val': rstr(obj.value), 'unit_seen': obj.unit, 'back': rstr(back.value) if e2 is None else 'nan',
+                     'eq_fresh': bool(obj == fresh), 'fresh_eq': bool(fresh == obj), 'lt_fresh': bool(obj < fresh), 'gt_fresh': bool(obj > fresh)})
+    return {'id': f'ch{i}', 'ev': 'chain', 'kind': kind, 'u0': path[0], 'v': rstr(v), 'hops': hops}
+
+
+def gen_chains(tier, rnd):
+    evs, i = [], 0
+    for kind in spectab.kinds():
+        us = spectab.units_of(kind)
+        for _ in range(6 if tier == 'quick' else 60):
+            path = [rnd.choice(us) for _ in range(rnd.randint(3, 6))]
+            v = float(f'{rnd.uniform(1, 10):.12g}e{rnd.randint(-6, 6)}')
+            if not legal(kind, v):
+                v = abs(v)
+            evs.append(chain_event(i, kind, path, v)); i += 1
+    return evs
+
+
 def legal(kind, v):
     s = spectab.sign_rule(kind)
     return (v > 0) if s == 'pos' else (v >= 0) if s == 'nonneg' else True
@@ -173,7 +203,8 @@ def run(tier: str, seed: int, known_matchers=None) -> int:
         v.violation(b)
     conv = gen_conv(tier, rnd)
     cmpv = gen_cmp(tier, rnd)
-    evs = conv + cmpv
+    chains = gen_chains(tier, rnd)
+    evs = conv + cmpv + chains
     res = validate('Trace_Units', evs)
     v.states, v.transitions = res.states, res.transitions
     v.traces = len(evs)
@@ -197,6 +228,7 @@ def run(tier: str, seed: int, known_matchers=None) -> int:
     v.extra['unit_pairs_exhaustive'] = True
     v.extra['conversion_events'] = len(conv)
     v.extra['comparison_events'] = len(cmpv)
+    v.extra['inplace_chain_events'] = len(chains)
     v.sample(conv[3]); v.sample(cmpv[0]); v.sample(cmpv[len(cmpv) // 2])
     v.assumptions = ['BigRat override (cross-checked by RatLaws)', 'values restricted to 1e-150..1e150 so results stay normal doubles',
                      'pi as a 50-digit rational']
